@@ -723,7 +723,8 @@ def step_order_rows(g: G, sch: Sch, final=False):
         if cols is None:
             return None
         limit = g.pick([None, 0, 1, 2, 3, 5]) if final else g.pick([0, 1, 2, 3, 5, None])
-        if final and g.cfg.get("null_order_cols") and g.boolean(0.5):
+        noc = g.cfg.get("null_order_cols")
+        if final and noc and g.boolean(0.5 if noc is True else float(noc)):
             # a NULL-able leading order column (only for checks that compare an engine with itself: where NULLs
             # sort is engine specific); the order stays total because the key columns follow
             nullable = [c for c in sch.names() if sch.cols[c]["null"] and not sch.cols[c]["zn"] and c not in cols and sch.cols[c]["type"] != "bool"]
